@@ -319,6 +319,8 @@ def make_cfg(seed, idx):
         kinds = ("tri", "fbank", "gabor", "gammatone")
     bank = gen.bank_cfg(rng, kinds=kinds)
     cfg = gen.stft_cfg(rng, bank=bank, allow_fs_gt_fl=bool(rng.random() < 0.12))
+    if idx % 11 == 6:
+        cfg["window_function"] = "vfwelch"  # a window written by a user against the documented interface (vf/userbank.py)
     return cfg
 
 
